@@ -583,6 +583,93 @@ theorem loadLayers_inv (dirs : List (Str × DirT)) (lc : List (Str × Str)) (ls 
           · exact ⟨h3, h4⟩
           · exact ih2 l hl'
 
+/-- what is needed of a list of loaded layers, before the default one is moved to the front -/
+structure LoadedOK (ls : List Layer) : Prop where
+  names : (ls.map (·.name)).Nodup
+  dirs : (ls.map (fun l => lower l.path)).Nodup
+  reserved : ∀ l ∈ ls, l.path ≠ glyphsDir → l.name ≠ defaultName
+  inv : ∀ l ∈ ls, LInvW lower l ∧ Sync l
+
+/-- moving the default layer to the front of such a list gives a state in the invariant -/
+theorem sinv_of_defaultFirst (ls ls' : List Layer) (hok : LoadedOK lower ls) (h : defaultFirst ls = some ls') :
+    SInv lower { layers := ls', pathSet := (ls'.drop 1).map (fun l => lower l.path) } ∧
+    AllSync { layers := ls', pathSet := (ls'.drop 1).map (fun l => lower l.path) } := by
+  unfold defaultFirst at h
+  cases hf : ls.find? (·.isDefault) with
+  | none => simp [hf] at h
+  | some d =>
+    simp only [hf, Option.some.injEq] at h
+    obtain ⟨hd, a, b, rfl, ha⟩ := find_split hf
+    rw [removeFirst_split a b d hd ha] at h
+    subst h
+    have hdp : d.path = glyphsDir := by simpa [Layer.isDefault] using hd
+    have hnames := hok.names
+    have hdirs := hok.dirs
+    have hres := hok.reserved
+    have hinv := hok.inv
+    simp only [List.map_append, List.map_cons] at hnames hdirs
+    have hnotdef : ∀ x, x ∈ a ∨ x ∈ b → x.path ≠ glyphsDir := by
+      intro x hx hxp
+      rw [List.nodup_append] at hdirs
+      obtain ⟨_, h2, h3⟩ := hdirs
+      rcases hx with hx | hx
+      · exact h3 (lower x.path) (List.mem_map.2 ⟨x, hx, rfl⟩) (lower d.path) (by simp) (by rw [hxp, hdp])
+      · rw [List.nodup_cons] at h2
+        exact h2.1 (by rw [hdp, ← hxp]; exact List.mem_map.2 ⟨x, hx, rfl⟩)
+    refine ⟨⟨⟨d, a ++ b, rfl, hdp⟩, ?_, ?_, ?_, ?_, ?_, ?_⟩, ?_⟩
+    · intro x hx
+      simp only [List.tail_cons, List.mem_append] at hx
+      exact hnotdef x hx
+    · intro x hx
+      simp only [List.tail_cons, List.mem_append] at hx
+      apply hres x _ (hnotdef x hx)
+      simp only [List.mem_append, List.mem_cons]
+      rcases hx with hx | hx
+      · exact Or.inl hx
+      · exact Or.inr (Or.inr hx)
+    · intro x hx
+      simp only [List.tail_cons, List.drop_one] at hx ⊢
+      exact List.mem_map.2 ⟨x, hx, rfl⟩
+    · simp only [List.tail_cons, List.map_append]
+      rw [List.nodup_append] at hdirs ⊢
+      obtain ⟨h1, h2, h3⟩ := hdirs
+      exact ⟨h1, (List.nodup_cons.1 h2).2, fun x hx y hy => h3 x hx y (List.mem_cons_of_mem _ hy)⟩
+    · simp only [List.map_cons, List.map_append]
+      rw [List.nodup_append] at hnames
+      obtain ⟨h1, h2, h3⟩ := hnames
+      rw [List.nodup_cons] at h2 ⊢
+      refine ⟨?_, List.nodup_append.2 ⟨h1, h2.2, fun x hx y hy => h3 x hx y (List.mem_cons_of_mem _ hy)⟩⟩
+      simp only [List.mem_append, not_or]
+      exact ⟨fun hc => h3 d.name hc d.name (by simp) rfl, h2.1⟩
+    · intro x hx
+      apply (hinv x _).1
+      simp only [List.mem_cons, List.mem_append] at hx ⊢
+      rcases hx with rfl | hx | hx
+      · exact Or.inr (Or.inl rfl)
+      · exact Or.inl hx
+      · exact Or.inr (Or.inr hx)
+    · intro x hx
+      apply (hinv x _).2
+      simp only [List.mem_cons, List.mem_append] at hx ⊢
+      rcases hx with rfl | hx | hx
+      · exact Or.inr (Or.inl rfl)
+      · exact Or.inl hx
+      · exact Or.inr (Or.inr hx)
+
+/-- the layers loaded from (any sub-list of) the entries of a well-formed tree are `LoadedOK` -/
+theorem loadedOK_of_clean (t : Tree) (ht : CleanTree lower t) (lc : List (Str × Str)) (hsub : lc.Sublist t.layercontents)
+    (ls : List Layer) (hls : loadLayers lower t.dirs lc = some ls) : LoadedOK lower ls := by
+  obtain ⟨hmap, hinv⟩ := loadLayers_inv lower t.dirs lc ls hls
+    (fun e he => ht.dirsOK e (hsub.subset he))
+  refine ⟨?_, ?_, ?_, hinv⟩
+  · have : ls.map (·.name) = lc.map (·.1) := by rw [← hmap, List.map_map]; rfl
+    rw [this]; exact ht.namesNodup.sublist (hsub.map _)
+  · have : ls.map (fun l => lower l.path) = lc.map (fun e => lower e.2) := by rw [← hmap, List.map_map]; rfl
+    rw [this]; exact ht.dirsDistinct.sublist (hsub.map _)
+  · intro l hl
+    have : (l.name, l.path) ∈ lc := by rw [← hmap]; exact List.mem_map.2 ⟨l, hl, rfl⟩
+    exact ht.reserved _ (hsub.subset this)
+
 /-- **a loaded font starts in the invariant** (so `inv_reachable` applies to every history on it) -/
 theorem inv_loaded (t : Tree) (S : LayerSet) (ht : CleanTree lower t) (h : loadTree lower t = some S) :
     SInv lower S ∧ AllSync S := by
@@ -591,77 +678,75 @@ theorem inv_loaded (t : Tree) (S : LayerSet) (ht : CleanTree lower t) (h : loadT
   | none => simp [hls] at h
   | some ls =>
     simp only [hls] at h
-    obtain ⟨hmap, hinv⟩ := loadLayers_inv lower t.dirs t.layercontents ls hls ht.dirsOK
-    unfold defaultFirst at h
-    cases hf : ls.find? (·.isDefault) with
-    | none => simp [hf] at h
-    | some d =>
-      simp only [hf, Option.some.injEq] at h
-      obtain ⟨hd, a, b, rfl, ha⟩ := find_split hf
-      rw [removeFirst_split a b d hd ha] at h
+    have hok := loadedOK_of_clean lower t ht t.layercontents (List.Sublist.refl _) ls hls
+    cases hd : defaultFirst ls with
+    | none => simp [hd] at h
+    | some ls' =>
+      simp only [hd, Option.some.injEq] at h
       subst h
-      have hdp : d.path = glyphsDir := by simpa [Layer.isDefault] using hd
-      -- names and lower-cased directories of the loaded layers are those of the file
-      have hnames : ((a ++ d :: b).map (·.name)).Nodup := by
-        have : (a ++ d :: b).map (·.name) = t.layercontents.map (·.1) := by rw [← hmap, List.map_map]; rfl
-        rw [this]; exact ht.namesNodup
-      have hdirs : ((a ++ d :: b).map (fun l => lower l.path)).Nodup := by
-        have : (a ++ d :: b).map (fun l => lower l.path) = t.layercontents.map (fun e => lower e.2) := by
-          rw [← hmap, List.map_map]; rfl
-        rw [this]; exact ht.dirsDistinct
-      have hres : ∀ l ∈ a ++ d :: b, l.path ≠ glyphsDir → l.name ≠ defaultName := by
-        intro l hl
-        have : (l.name, l.path) ∈ t.layercontents := by
-          rw [← hmap]; exact List.mem_map.2 ⟨l, hl, rfl⟩
-        exact ht.reserved _ this
-      simp only [List.map_append, List.map_cons] at hnames hdirs
-      have hnotdef : ∀ x, x ∈ a ∨ x ∈ b → x.path ≠ glyphsDir := by
-        intro x hx hxp
-        rw [List.nodup_append] at hdirs
-        obtain ⟨_, h2, h3⟩ := hdirs
-        rcases hx with hx | hx
-        · exact h3 (lower x.path) (List.mem_map.2 ⟨x, hx, rfl⟩) (lower d.path) (by simp) (by rw [hxp, hdp])
-        · rw [List.nodup_cons] at h2
-          exact h2.1 (by rw [hdp, ← hxp]; exact List.mem_map.2 ⟨x, hx, rfl⟩)
-      refine ⟨⟨⟨d, a ++ b, rfl, hdp⟩, ?_, ?_, ?_, ?_, ?_, ?_⟩, ?_⟩
-      · intro x hx
-        simp only [List.tail_cons, List.mem_append] at hx
-        exact hnotdef x hx
-      · intro x hx
-        simp only [List.tail_cons, List.mem_append] at hx
-        apply hres x _ (hnotdef x hx)
-        simp only [List.mem_append, List.mem_cons]
-        rcases hx with hx | hx
-        · exact Or.inl hx
-        · exact Or.inr (Or.inr hx)
-      · intro x hx
-        simp only [List.tail_cons, List.drop_one] at hx ⊢
-        exact List.mem_map.2 ⟨x, hx, rfl⟩
-      · simp only [List.tail_cons, List.map_append]
-        rw [List.nodup_append] at hdirs ⊢
-        obtain ⟨h1, h2, h3⟩ := hdirs
-        exact ⟨h1, (List.nodup_cons.1 h2).2, fun x hx y hy => h3 x hx y (List.mem_cons_of_mem _ hy)⟩
-      · simp only [List.map_cons, List.map_append]
-        rw [List.nodup_append] at hnames
-        obtain ⟨h1, h2, h3⟩ := hnames
-        rw [List.nodup_cons] at h2 ⊢
-        refine ⟨?_, List.nodup_append.2 ⟨h1, h2.2, fun x hx y hy => h3 x hx y (List.mem_cons_of_mem _ hy)⟩⟩
-        simp only [List.mem_append, not_or]
-        exact ⟨fun hc => h3 d.name hc d.name (by simp) rfl, h2.1⟩
-      · intro x hx
-        apply (hinv x _).1
-        simp only [List.mem_cons, List.mem_append] at hx ⊢
-        rcases hx with rfl | hx | hx
-        · exact Or.inr (Or.inl rfl)
-        · exact Or.inl hx
-        · exact Or.inr (Or.inr hx)
-      · intro x hx
-        apply (hinv x _).2
-        simp only [List.mem_cons, List.mem_append] at hx ⊢
-        rcases hx with rfl | hx | hx
-        · exact Or.inr (Or.inl rfl)
-        · exact Or.inl hx
-        · exact Or.inr (Or.inr hx)
+      exact sinv_of_defaultFirst lower ls ls' hok hd
+
+/-- **… and so does a PARTIALLY loaded font**, whatever the layer filter (all, none, default only, any
+    predicate): the real default layer or the empty placeholder comes first, nothing else lives in `glyphs`.
+    Extra hypothesis for the placeholder: no directory of the file differs from `glyphs` only by case. -/
+theorem inv_loaded_filtered (f : LFilter) (t : Tree) (S : LayerSet) (ht : CleanTree lower t)
+    (hcase : ∀ e ∈ t.layercontents, lower e.2 = lower glyphsDir → e.2 = glyphsDir)
+    (h : loadTreeF lower f t = some S) : SInv lower S ∧ AllSync S := by
+  unfold loadTreeF at h
+  cases hls : loadLayers lower t.dirs (t.layercontents.filter fun e => f.shouldLoad e.1 e.2) with
+  | none => simp [hls] at h
+  | some ls =>
+    simp only [hls] at h
+    have hok := loadedOK_of_clean lower t ht _ List.filter_sublist ls hls
+    obtain ⟨hmap, _⟩ := loadLayers_inv lower t.dirs _ ls hls
+      (fun e he => ht.dirsOK e (List.filter_sublist.subset he))
+    -- with or without the placeholder the list is `LoadedOK`
+    have hok₁ : LoadedOK lower
+        (if (!f.includesDefault && !ls.any (·.isDefault)) = true then ls ++ [Layer.default] else ls) := by
+      split
+      · rename_i hc
+        simp only [Bool.and_eq_true, Bool.not_eq_true', List.any_eq_false, ] at hc
+        have hnodef : ∀ l ∈ ls, l.path ≠ glyphsDir := by
+          intro l hl hp
+          have := hc.2 l hl
+          simp [Layer.isDefault, hp] at this
+        refine ⟨?_, ?_, ?_, ?_⟩
+        · simp only [List.map_append, List.map_cons, List.map_nil]
+          refine List.nodup_append.2 ⟨hok.names, by simp, ?_⟩
+          intro x hx y hy
+          simp only [List.mem_singleton] at hy; subst hy
+          obtain ⟨l, hl, rfl⟩ := List.mem_map.1 hx
+          exact hok.reserved l hl (hnodef l hl)
+        · simp only [List.map_append, List.map_cons, List.map_nil]
+          refine List.nodup_append.2 ⟨hok.dirs, by simp, ?_⟩
+          intro x hx y hy
+          simp only [List.mem_singleton] at hy; subst hy
+          obtain ⟨l, hl, rfl⟩ := List.mem_map.1 hx
+          intro heq
+          have hmem : (l.name, l.path) ∈ t.layercontents := by
+            have : (l.name, l.path) ∈ t.layercontents.filter fun e => f.shouldLoad e.1 e.2 := by
+              rw [← hmap]; exact List.mem_map.2 ⟨l, hl, rfl⟩
+            exact List.filter_sublist.subset this
+          exact hnodef l hl (hcase _ hmem (by simpa [Layer.default, Layer.new] using heq))
+        · intro l hl hp
+          simp only [List.mem_append, List.mem_singleton] at hl
+          rcases hl with hl | rfl
+          · exact hok.reserved l hl hp
+          · exact absurd rfl hp
+        · intro l hl
+          simp only [List.mem_append, List.mem_singleton] at hl
+          rcases hl with hl | rfl
+          · exact hok.inv l hl
+          · exact ⟨linvw_new lower _ _, sync_new _ _⟩
+      · exact hok
+    generalize (if (!f.includesDefault && !ls.any (·.isDefault)) = true then ls ++ [Layer.default] else ls) = ls₁
+      at h hok₁
+    cases hd : defaultFirst ls₁ with
+    | none => simp [hd] at h
+    | some ls' =>
+      simp only [hd, Option.some.injEq] at h
+      subst h
+      exact sinv_of_defaultFirst lower ls₁ ls' hok₁ hd
 
 end
 
